@@ -225,7 +225,8 @@ class ModuleImports:
     def _get_new_import_lineno(self):
         if self.imports:
             return self.imports[-1].end_line
-        return 1
+        # below the shebang, the coding line and the module's docstring
+        return self._first_import_line()
 
     def filter_names(self, can_select):
         visitor = actions.RemovingVisitor(
